@@ -121,7 +121,7 @@ class C19(Check):
             'Object counts 0, 1, few, and enough to fill 1..5 read chunks of 64 KiB. non-trivial = >= 2 objects; distinct = hash of the case')
     ASSUMPTIONS = ['orjson / json are trusted as JSON codecs; floats are finite; top-level items are dicts (domain of the property)']
     ANCHORS = ['rxsci/container/json.py', 'rxsci/io/file.py', 'rxsci/framing/line.py', 'rxsci/data/codec.py']
-    REQUIRED_TAGS = ['none', 'gzip', 'zstd', 'stream', 'path', 'fileobj', 'open_obj', 'empty', 'multi-chunk', 'astral', 'whole-document', 'over-1MiB-compressible', 'gzip-ratio>32-over-2MiB', 'pushed-source', 'open_obj-with-short-reads', 'bom', 'open_obj-stdlib-codec']
+    REQUIRED_TAGS = ['none', 'gzip', 'zstd', 'stream', 'path', 'fileobj', 'open_obj', 'empty', 'multi-chunk', 'astral', 'whole-document', 'over-1MiB-compressible', 'gzip-ratio>32-over-2MiB', 'pushed-source', 'open_obj-with-short-reads', 'bom', 'open_obj-stdlib-codec', 'loader-built-before-the-dump', 'target-exists-empty']
     REQUIRED_OBSERVED = ['objects_compared', 'twin_dumps_read_back']
 
     def __init__(self):
@@ -229,11 +229,22 @@ class C19(Check):
                 path = os.path.join(self._tmpdir(), 'f.json')
                 if os.path.exists(path):
                     os.unlink(path)
-                if case['objs']['oseed'] % 2:
+                prior = case['objs']['oseed'] % 3
+                if prior == 1:
                     # the target already exists (an earlier dump): it must be replaced, not appended to or kept
                     with open(path, 'wb') as f0:
                         f0.write(b'{"stale": true}\n' * 3)
                     out.tags.append('overwrites-existing-file')
+                elif prior == 2:
+                    # ... or exists and is empty (mkstemp / NamedTemporaryFile(delete=False) / a touched file / an earlier empty dump)
+                    open(path, 'wb').close()
+                    out.tags.append('target-exists-empty')
+                early = None
+                if (case['objs']['oseed'] // 3) % 2:
+                    # observables are lazy: the loader is BUILT before the dump runs (rx.concat(dump, load), a loader built once and
+                    # subscribed after each dump) and subscribed after it
+                    early = call(J.load_from_file, [('filename', path), ('lines', True), ('skip', 0), ('ignore_error', False), ('encoding', 'utf-8'), ('compression', comp)])
+                    out.tags.append('loader-built-before-the-dump')
                 if len(objs) % 2:
                     from ..progs import dump_pushed
                     out.tags.append('pushed-source')
@@ -256,7 +267,7 @@ class C19(Check):
                 if not os.path.exists(path):
                     return out.fail('dump_to_file-completed-without-creating-the-file', objects=len(objs), compression=comp)
                 size = os.path.getsize(path)
-                got = subscribe2(call(J.load_from_file, [('filename', path), ('lines', True), ('skip', 0), ('ignore_error', False), ('encoding', 'utf-8'), ('compression', comp)]), out, 'load_from_file', same=lambda x, y: repr(x) == repr(y))
+                got = subscribe2(early if early is not None else call(J.load_from_file, [('filename', path), ('lines', True), ('skip', 0), ('ignore_error', False), ('encoding', 'utf-8'), ('compression', comp)]), out, 'load_from_file', same=lambda x, y: repr(x) == repr(y))
             elif mode == 'fileobj':
                 path = os.path.join(self._tmpdir(), 'g.json')
                 with open(path, 'wb') as f:
